@@ -8,8 +8,10 @@
 // "Replicas remaining to write: %v active uploads: %v" debug message (recognised by its argument
 // shape, so rewording it is harmless), waits until that many requests have arrived, and releases
 // the in-flight request with the (pick mod n)-th smallest service number. If no such message is
-// seen (it was removed) the controller falls back to waiting for quiescence, so the driver keeps
-// working, only slower.
+// seen (it was removed) the controller inspects the goroutines instead (runtime.Stack): the
+// putReplicas goroutine blocked in a channel receive with all the upload goroutines it started
+// parked in Do means "waiting for us"; with no upload goroutine left it means deadlock. No
+// decision depends on timing.
 package keepclient
 
 import (
@@ -23,6 +25,7 @@ import (
 	"io/ioutil"
 	"net/http"
 	"os"
+	"runtime"
 	"sort"
 	"strconv"
 	"strings"
@@ -147,7 +150,6 @@ type verifC11Ctl struct {
 	counts   []int
 	inflight map[int]*verifC11Flight
 	arrivals int
-	lastArr  time.Time
 	changed  chan struct{} // signalled (non-blocking) on every arrival
 	events   chan int      // "active" value of each "Replicas remaining" message
 	unknown  int           // requests to hosts that are not in the case
@@ -225,7 +227,6 @@ func (c *verifC11Ctl) Do(req *http.Request) (*http.Response, error) {
 	// would overwrite the first, which then shows up as a hang
 	c.inflight[idx] = fl
 	c.arrivals++
-	c.lastArr = time.Now()
 	c.mu.Unlock()
 	select {
 	case c.changed <- struct{}{}:
@@ -261,13 +262,6 @@ func (c *verifC11Ctl) waitInflight(n int, limit time.Duration) bool {
 			}
 		}
 	}
-}
-
-// quiescent: nothing new arrived for a while (fallback when no debug event is available)
-func (c *verifC11Ctl) quiescent(d time.Duration) bool {
-	c.mu.Lock()
-	defer c.mu.Unlock()
-	return time.Since(c.lastArr) > d
 }
 
 func (c *verifC11Ctl) releasePick(pick int) string {
@@ -325,20 +319,79 @@ type verifC11PutResult struct {
 
 var verifC11Seq int64
 var verifC11Hangs int
+var verifC11NoEvents bool // putReplicas does not print its "about to wait" message: poll goroutine states instead
+
+// verifC11GoID returns the id of the calling goroutine ("goroutine N [running]:").
+func verifC11GoID() int {
+	buf := make([]byte, 64)
+	buf = buf[:runtime.Stack(buf, false)]
+	f := strings.Fields(string(buf))
+	if len(f) < 2 {
+		return -1
+	}
+	id, _ := strconv.Atoi(f[1])
+	return id
+}
+
+type verifC11Snap struct {
+	mainWaiting bool // the goroutine running putReplicas is blocked in `<-uploadStatusChan`
+	children    int  // live uploadToKeepServer goroutines it started
+}
+
+var verifC11StackBuf = make([]byte, 1<<20)
+
+// verifC11Snapshot inspects a consistent dump of all goroutines (runtime.Stack stops the world).
+func verifC11Snapshot(mainID int) verifC11Snap {
+	var n int
+	for {
+		n = runtime.Stack(verifC11StackBuf, true)
+		if n < len(verifC11StackBuf) {
+			break
+		}
+		verifC11StackBuf = make([]byte, 2*len(verifC11StackBuf))
+	}
+	var snap verifC11Snap
+	hdr := fmt.Sprintf("goroutine %d [", mainID)
+	// "created by <pkg>.(*KeepClient).putReplicas in goroutine N": the upload goroutines, also
+	// before they have run their first instruction (the drain goroutine is created by
+	// putReplicas.func1 and the PutHR copier by PutHR, so they do not match)
+	child := fmt.Sprintf(".putReplicas in goroutine %d\n", mainID)
+	for _, blk := range strings.Split(string(verifC11StackBuf[:n]), "\n\n") {
+		if strings.HasPrefix(blk, hdr) {
+			lines := strings.SplitN(blk, "\n", 3)
+			if len(lines) >= 2 && strings.HasPrefix(lines[0][len(hdr):], "chan receive") &&
+				strings.Contains(lines[1], ".putReplicas(") {
+				snap.mainWaiting = true
+			}
+		} else if strings.Contains(blk+"\n", child) {
+			snap.children++
+		}
+	}
+	return snap
+}
 
 // verifC11Put runs one put case. A case that does not finish in time is run once more with a
 // longer limit before it is reported as a hang (a starved machine must not look like a deadlock);
-// after three hangs in this process the limit is 1 s and there is no second try.
+// after two hangs in this process the limit is 0.5 s and there is no second try.
 func verifC11Put(f []string) string {
+	if strings.HasPrefix(f[1], "puthr:") {
+		// PutHR allocates a BLOCKSIZE buffer when the declared size is <= 0 or BLOCKSIZE itself.
+		// In this sandbox touching 64 MiB of fresh memory was measured at 1.5-7 s when idle and
+		// much more under load, so such a case gets a very long limit and is never called a hang
+		// for being slow.
+		if nb, err := strconv.ParseInt(f[1][6:], 10, 64); err == nil && (nb <= 0 || nb >= 1<<24) && nb <= BLOCKSIZE {
+			return verifC11PutOnce(f, 20*time.Minute)
+		}
+	}
 	limit := 30 * time.Second
-	if verifC11Hangs >= 3 {
-		limit = 1 * time.Second
+	if verifC11Hangs >= 2 {
+		limit = 500 * time.Millisecond
 	}
 	out := verifC11PutOnce(f, limit)
 	if strings.HasPrefix(out, "hang") {
 		verifC11Hangs++
-		if verifC11Hangs <= 3 {
-			out = verifC11PutOnce(f, 90*time.Second)
+		if verifC11Hangs <= 2 {
+			out = verifC11PutOnce(f, 60*time.Second)
 		}
 	}
 	return out
@@ -365,7 +418,6 @@ func verifC11PutOnce(f []string, limit time.Duration) string {
 		inflight: map[int]*verifC11Flight{},
 		changed:  make(chan struct{}, 1),
 		events:   make(chan int, 4096),
-		lastArr:  time.Now(),
 		reqid:    fmt.Sprintf("req-verif-%d", atomic.AddInt64(&verifC11Seq, 1)),
 	}
 	var list svcList
@@ -443,74 +495,93 @@ func verifC11PutOnce(f []string, limit time.Duration) string {
 	defer verifC11Current.Store((*verifC11Ctl)(nil))
 
 	done := make(chan verifC11PutResult, 1)
+	idCh := make(chan int, 1)
 	go func() {
 		defer func() {
 			if r := recover(); r != nil {
 				done <- verifC11PutResult{err: fmt.Errorf("verif-panic: %v", r)}
 			}
 		}()
+		idCh <- verifC11GoID()
 		loc, n, err := call()
 		done <- verifC11PutResult{loc, n, err}
 	}()
+	mainID := <-idCh
 
 	var processed []string
 	var res verifC11PutResult
-	idleTicks := 0 // consecutive 150 ms waits without any progress (not clock based, see waitInflight)
+	idleTicks := 0 // consecutive timer waits without any progress (not clock based, see waitInflight)
 	pi := 0
 	expect := 0 // uploads believed to be in flight
 	sawEvent := false
+	nextPick := func() int {
+		pick := 0
+		if pi < len(picks) {
+			pick = picks[pi]
+		}
+		pi++
+		return pick
+	}
 loop:
 	for {
+		tick := 150 * time.Millisecond
+		if verifC11NoEvents {
+			tick = 500 * time.Microsecond
+		}
 		select {
 		case res = <-done:
 			break loop
 		case a := <-ctl.events:
 			sawEvent = true
 			expect = a
+			idleTicks = 0
 			if a == 0 {
-				idleTicks = 0
 				continue
 			}
-			idleTicks = 0
 			if !ctl.waitInflight(a, limit) {
 				ctl.releaseAll()
 				return "hang waiting-for-requests " + verifC11Join(processed)
 			}
-			pick := 0
-			if pi < len(picks) {
-				pick = picks[pi]
-			}
-			pi++
-			processed = append(processed, ctl.releasePick(pick))
+			processed = append(processed, ctl.releasePick(nextPick()))
 			expect = a - 1
-		case <-time.After(150 * time.Millisecond):
+		case <-time.After(tick):
+			if len(ctl.events) > 0 || len(done) > 0 {
+				continue
+			}
+			// No message from putReplicas for a while: look at the goroutines themselves. If the
+			// putReplicas goroutine is blocked receiving an upload status and every upload goroutine
+			// it started is parked in our Do, it waits for us (the message was removed); if it has no
+			// upload goroutine left at all, it will wait forever.
+			snap := verifC11Snapshot(mainID)
+			nin := ctl.nInflight()
+			switch {
+			case snap.mainWaiting && nin > 0 && snap.children == nin:
+				verifC11NoEvents = !sawEvent
+				processed = append(processed, ctl.releasePick(nextPick()))
+				expect = nin - 1
+				idleTicks = 0
+				continue
+			case snap.mainWaiting && nin == 0 && snap.children == 0:
+				return "hang deadlock: putReplicas waits for an upload status and no upload is running; processed=" + verifC11Join(processed)
+			}
 			idleTicks++
-			if time.Duration(idleTicks)*150*time.Millisecond > limit {
+			if time.Duration(idleTicks)*tick > limit {
 				msg := fmt.Sprintf("hang inflight=%d sawEvent=%v expect=%d processed=%s", ctl.nInflight(), sawEvent, expect, verifC11Join(processed))
 				ctl.releaseAll()
 				return msg
 			}
-			// fallback without debug events: release when nothing has arrived for a while
-			if len(ctl.events) > 0 {
-				continue
-			}
-			if !sawEvent && ctl.nInflight() > 0 && ctl.quiescent(100*time.Millisecond) {
-				pick := 0
-				if pi < len(picks) {
-					pick = picks[pi]
-				}
-				pi++
-				processed = append(processed, ctl.releasePick(pick))
-				idleTicks = 0
-			}
 		}
 	}
 	// uploads that putReplicas abandoned: wait for them to arrive, then let them finish
-	if sawEvent {
+	if sawEvent && !verifC11NoEvents {
 		ctl.waitInflight(expect, 10*time.Second)
 	} else {
-		for i := 0; i < 50 && !ctl.quiescent(100*time.Millisecond); i++ {
-			time.Sleep(20 * time.Millisecond)
+		for i := 0; i < 20000; i++ {
+			snap := verifC11Snapshot(mainID)
+			if snap.children <= ctl.nInflight() {
+				break
+			}
+			time.Sleep(500 * time.Microsecond)
 		}
 	}
 	pending := ctl.releaseAll()
@@ -666,7 +737,9 @@ func TestVerifC11(t *testing.T) {
 	defer outf.Close()
 	w := bufio.NewWriter(outf)
 	defer w.Flush()
-	DebugPrintf = verifC11Debugf
+	if os.Getenv("VERIF_C11_NOEVENTS") == "" { // (set only to self-test the goroutine-inspection path)
+		DebugPrintf = verifC11Debugf
+	}
 	sc := bufio.NewScanner(in)
 	sc.Buffer(make([]byte, 1<<20), 1<<26)
 	for sc.Scan() {
